@@ -4066,4 +4066,186 @@ theorem opq_succ (k : ℤ) : k ≥ 0 → opq (k + 1) = csnoc (opq k) evopaque :=
 
 /-! uninterpreted in specs.py, NO schema emitted: `wid`. -/
 
+
+/-! # Sixteenth batch: the dense enumeration of all planted-compatible parities -/
+
+theorem mem_ydomains_iff (k n : ℤ) (X : ISeq) :
+    X ∈ ydomains k n ↔ (X.length = k.toNat ∧ (∀ y ∈ X, 1 ≤ y ∧ y ≤ n) ∧ X.Pairwise (· < ·)) := by
+  constructor
+  · exact ydomains_mem k n X
+  · rintro ⟨hl, hb, hp⟩
+    unfold ydomains combs
+    rw [mem_combsLex]
+    refine ⟨?_, hl⟩
+    have hsub : X ⊆ apseq 1 n := by
+      intro y hy
+      have := hb y hy
+      exact (mem_apseq 1 n y).mpr ⟨y - 1, ⟨by omega, by omega⟩, by ring⟩
+    have hnd : X.Nodup := hp.imp (fun h => by omega)
+    exact List.sublist_of_subperm_of_pairwise (r := (· ≤ ·)) (List.subperm_of_subset hnd hsub)
+      (hp.imp (fun h => by omega)) ((apseq_pairwise_lt 1 n).imp (fun h => by omega))
+
+/-- index form (as in the z3 definitions) versus list form of "entries in `1..n`, strictly increasing" -/
+theorem idxform_iff (k n : ℤ) (X : ISeq) (hl : X.length = k.toNat) (hk : 0 ≤ k) :
+    ((∀ j : ℤ, (0 ≤ j ∧ j < k) → (1 ≤ iget X j ∧ iget X j ≤ n)) ∧
+     (∀ i j : ℤ, (0 ≤ i ∧ i < j ∧ j < k) → iget X i < iget X j)) ↔
+    ((∀ y ∈ X, 1 ≤ y ∧ y ≤ n) ∧ X.Pairwise (· < ·)) := by
+  constructor
+  · rintro ⟨hb, hp⟩
+    constructor
+    · intro y hy
+      obtain ⟨m, hm, rfl⟩ := List.getElem_of_mem hy
+      have := hb (m : ℤ) ⟨by omega, by omega⟩
+      rw [iget_natCast X m hm] at this
+      exact this
+    · rw [List.pairwise_iff_getElem]
+      intro i j hi hj hij
+      have := hp (i : ℤ) (j : ℤ) ⟨by omega, by omega, by omega⟩
+      rw [iget_natCast X i hi, iget_natCast X j hj] at this
+      exact this
+  · rintro ⟨hb, hp⟩
+    constructor
+    · rintro j ⟨hj0, hj1⟩
+      have hlt : j.toNat < X.length := by omega
+      have hj : ((j.toNat : ℕ) : ℤ) = j := by omega
+      rw [← hj, iget_natCast X _ hlt]
+      exact hb _ (List.getElem_mem hlt)
+    · rintro i j ⟨hi0, hij, hj1⟩
+      rw [List.pairwise_iff_getElem] at hp
+      have hi : i.toNat < X.length := by omega
+      have hj : j.toNat < X.length := by omega
+      have hi' : ((i.toNat : ℕ) : ℤ) = i := by omega
+      have hj' : ((j.toNat : ℕ) : ℤ) = j := by omega
+      rw [← hi', ← hj', iget_natCast X _ hi, iget_natCast X _ hj]
+      exact hp i.toNat j.toNat hi hj (by omega)
+
+/-- all parities `X ++ [0]`, `X ++ [1]` (unfiltered), domain by domain -/
+def allx (k n : ℤ) : CSeq := ((ydomains k n).map (fun X => [isnoc X 0, isnoc X 1])).flatten
+
+theorem mem_allx (k n : ℤ) (hk : 0 ≤ k) (A : ISeq) : A ∈ allx k n ↔ valid1x k n A := by
+  unfold allx
+  simp only [List.mem_flatten, List.mem_map]
+  constructor
+  · rintro ⟨l, ⟨X, hX, rfl⟩, hA⟩
+    obtain ⟨hl, hb, hp⟩ := (mem_ydomains_iff k n X).mp hX
+    have hidx := (idxform_iff k n X hl hk).mpr ⟨hb, hp⟩
+    have key : ∀ b : ℤ, (b = 0 ∨ b = 1) → valid1x k n (isnoc X b) := by
+      intro b hb01
+      unfold valid1x
+      rw [ifront_snoc, ilast_snoc, ilen_snoc]
+      exact ⟨by unfold ilen; omega, hk, hb01, hidx.1, hidx.2⟩
+    simp only [List.mem_cons, List.not_mem_nil, or_false] at hA
+    rcases hA with rfl | rfl
+    · exact key 0 (Or.inl rfl)
+    · exact key 1 (Or.inr rfl)
+  · intro h
+    have hv := h
+    obtain ⟨hl, _, hb01, hb, hp⟩ := h
+    obtain ⟨hA, hfl⟩ := front_last A (by omega)
+    have hXl : (ifront A).length = k.toNat := by unfold ilen at hfl hl; omega
+    have hlist := (idxform_iff k n (ifront A) hXl hk).mp ⟨hb, hp⟩
+    refine ⟨_, ⟨ifront A, (mem_ydomains_iff k n _).mpr ⟨hXl, hlist.1, hlist.2⟩, rfl⟩, ?_⟩
+    simp only [List.mem_cons, List.not_mem_nil, or_false]
+    rcases hb01 with h0 | h1
+    · left; rw [← h0]; exact hA
+    · right; rw [← h1]; exact hA
+
+theorem allx_nodup (k n : ℤ) : (allx k n).Nodup := by
+  unfold allx
+  rw [List.nodup_flatten]
+  constructor
+  · intro l hl
+    obtain ⟨X, _, rfl⟩ := List.mem_map.mp hl
+    simp [isnoc]
+  · rw [List.pairwise_map]
+    apply List.Pairwise.imp _ (ydomains_nodup k n)
+    intro X X' hne
+    rw [List.disjoint_left]
+    intro A hA hA'
+    apply hne
+    have h1 : ifront A = X := by
+      simp only [List.mem_cons, List.not_mem_nil, or_false] at hA
+      rcases hA with rfl | rfl <;> exact ifront_snoc _ _
+    have h2 : ifront A = X' := by
+      simp only [List.mem_cons, List.not_mem_nil, or_false] at hA'
+      rcases hA' with rfl | rfl <;> exact ifront_snoc _ _
+    rw [← h1, ← h2]
+
+section DenseParities
+
+variable (psatx : ISeq → Prop)
+
+open Classical in
+/-- the planted-compatible parities `X+[0]`, `X+[1]` over the first `t` domains -/
+noncomputable def yxdom (k n t : ℤ) : CSeq :=
+  ((((ydomains k n).take t.toNat).map (fun X => [isnoc X 0, isnoc X 1])).flatten).filter
+    (fun A => decide (psatx A))
+
+/-- `t == 0 -> yxdom(k, n, t) == cnil` -/
+theorem yxdom_zero (k n t : ℤ) : t = 0 → yxdom psatx k n t = cnil := by
+  rintro rfl; simp [yxdom, cnil]
+
+/-- `And(0 <= t, t < clen(D)) -> yxdom(k, n, t + 1) == If(psatx(isnoc(X, 1)), csnoc(y1, isnoc(X, 1)), y1)`,
+    `y1 = If(psatx(isnoc(X, 0)), csnoc(yxdom(k, n, t), isnoc(X, 0)), yxdom(k, n, t))`,
+    `X = cget(D, t)`, `D = combs(apseq(1, n), k)` -/
+theorem yxdom_succ (k n t : ℤ) : (0 ≤ t ∧ t < clen (combs (apseq 1 n) k)) →
+    yxdom psatx k n (t + 1) =
+      (open Classical in
+       if psatx (isnoc (cget (combs (apseq 1 n) k) t) 1)
+       then csnoc (if psatx (isnoc (cget (combs (apseq 1 n) k) t) 0)
+                   then csnoc (yxdom psatx k n t) (isnoc (cget (combs (apseq 1 n) k) t) 0)
+                   else yxdom psatx k n t)
+                  (isnoc (cget (combs (apseq 1 n) k) t) 1)
+       else (if psatx (isnoc (cget (combs (apseq 1 n) k) t) 0)
+             then csnoc (yxdom psatx k n t) (isnoc (cget (combs (apseq 1 n) k) t) 0)
+             else yxdom psatx k n t)) := by
+  rintro ⟨h0, h1⟩
+  unfold clen at h1
+  have hlt : t.toNat < (ydomains k n).length := by unfold ydomains; omega
+  have hk : (t + 1).toNat = t.toNat + 1 := by omega
+  have hget : cget (combs (apseq 1 n) k) t = (ydomains k n)[t.toNat] := by
+    unfold cget ydomains
+    rw [List.getD_eq_getElem?_getD, List.getElem?_eq_getElem (by unfold ydomains at hlt; exact hlt)]; rfl
+  rw [hget]
+  unfold yxdom csnoc
+  rw [hk, List.take_add_one, List.getElem?_eq_getElem hlt, List.map_append, List.flatten_append,
+    List.filter_append]
+  by_cases hp0 : psatx (isnoc (ydomains k n)[t.toNat] 0) <;>
+  by_cases hp1 : psatx (isnoc (ydomains k n)[t.toNat] 1) <;>
+  simp [hp0, hp1]
+
+open Classical in
+theorem yxdom_full (k n t : ℤ) (ht : t = clen (combs (apseq 1 n) k)) :
+    yxdom psatx k n t = (allx k n).filter (fun A => decide (psatx A)) := by
+  subst ht
+  unfold yxdom allx clen
+  rw [Int.toNat_natCast]
+  have : (ydomains k n).take (combs (apseq 1 n) k).length = ydomains k n := by
+    unfold ydomains; exact List.take_length
+  rw [this]
+
+/-- MAIN LEMMA `all_parities_spec`: `And(k >= 0, n >= 0, t == clen(D)) -> And(cdistinct(yxdom(k, n, t)),
+    cvalidx(k, n, yxdom(k, n, t)), clen(yxdom(k, n, t)) == navail_x(k, n))`, `D = combs(apseq(1, n), k)` -/
+theorem all_parities_spec (k n t : ℤ) : (k ≥ 0 ∧ n ≥ 0 ∧ t = clen (combs (apseq 1 n) k)) →
+    (cdistinct (yxdom psatx k n t) ∧ cvalidx psatx k n (yxdom psatx k n t) ∧
+     clen (yxdom psatx k n t) = navail_x psatx k n) := by
+  classical
+  rintro ⟨hk, _, ht⟩
+  rw [yxdom_full psatx k n t ht]
+  have hnd : ((allx k n).filter (fun A => decide (psatx A))).Nodup := (allx_nodup k n).filter _
+  have hmem : ∀ A, A ∈ (allx k n).filter (fun A => decide (psatx A)) ↔ (valid1x k n A ∧ psatx A) := by
+    intro A
+    rw [List.mem_filter, mem_allx k n hk A]
+    simp
+  refine ⟨hnd, fun A hA => (hmem A).mp hA, ?_⟩
+  unfold clen navail_x
+  have hset : ({A | valid1x k n A ∧ psatx A} : Set ISeq) =
+      ↑((allx k n).filter (fun A => decide (psatx A))).toFinset := by
+    ext A
+    simp only [Set.mem_ofPred_eq, Finset.mem_coe, List.mem_toFinset]
+    exact (hmem A).symm
+  rw [hset, Set.ncard_coe_finset, List.toFinset_card_of_nodup hnd]
+
+end DenseParities
+
 end CnfSem
